@@ -424,6 +424,14 @@ func Now() time.Time {
 	return time.Unix(0, sc.now)
 }
 
+// SetNow moves the virtual clock of the current execution (Controlled mode only; it starts at 0 in every
+// execution). Timestamps near the end of the int64 range have the longest encodings.
+func SetNow(ns int64) {
+	if mode == Controlled {
+		sc.now = ns
+	}
+}
+
 // NowNanos returns the current virtual time without advancing it.
 func NowNanos() int64 {
 	if mode != Controlled {
